@@ -80,4 +80,568 @@ theorem elide_head (lim : Nat) (s : Str) (hl : 5 ≤ lim) : (elide lim s).head? 
       rw [hk]; simp
   · rfl
 
+
+/-! ### `repr_str` -/
+
+theorem escBody_append (P : Char → Bool) (q : Char) : ∀ (a b : Str), escBody P q (a ++ b) = escBody P q a ++ escBody P q b
+  | [], _ => rfl
+  | c :: a, b => by simp [escBody, escBody_append P q a b]
+
+/-- the string's quote does not change when `repr_str` cuts the middle out (always the case when
+    nothing is cut, or when the string has no quote character at all) -/
+def QuoteStable (lim : Nat) (x : Str) : Prop :=
+  x.length ≤ (lim - 3) / 2 ∨
+  quoteOf (x.take ((lim - 3) / 2) ++ lastChars x (lim - 3 - (lim - 3) / 2)) = quoteOf x
+
+theorem lastChars_suffix (x : Str) (j : Nat) : ∃ pre, x = pre ++ lastChars x j := by
+  unfold lastChars pySliceFrom
+  split
+  · exact ⟨x.take _, (List.take_append_drop _ _).symm⟩
+  · exact ⟨x.take _, (List.take_append_drop _ _).symm⟩
+
+theorem contains_append_suffix (x : Str) (c : Char) (tl : Str) (h : ∃ pre, x = pre ++ tl) :
+    (x ++ tl).contains c = x.contains c := by
+  obtain ⟨pre, hp⟩ := h
+  have : ∀ y, y ∈ tl → y ∈ x := by intro y hy; rw [hp]; exact List.mem_append_right _ hy
+  cases h1 : x.contains c with
+  | true =>
+    have := List.contains_iff_mem.mp h1
+    exact List.contains_iff_mem.mpr (List.mem_append_left _ this)
+  | false =>
+    cases h2 : (x ++ tl).contains c with
+    | false => rfl
+    | true =>
+      have hm := List.contains_iff_mem.mp h2
+      rcases List.mem_append.mp hm with h' | h'
+      · have := List.contains_iff_mem.mpr h'; rw [h1] at this; exact absurd this (by simp)
+      · have := List.contains_iff_mem.mpr (this c h'); rw [h1] at this; exact absurd this (by simp)
+
+theorem quoteOf_append_suffix (x tl : Str) (h : ∃ pre, x = pre ++ tl) : quoteOf (x ++ tl) = quoteOf x := by
+  unfold quoteOf
+  rw [contains_append_suffix x '\'' tl h, contains_append_suffix x '"' tl h]
+
+/-- **`repr_str` against `str.__repr__`** -/
+theorem reprStr_agree (P : Char → Bool) (w lim : Nat) (x : Str) (hl : 2 * w + 5 ≤ lim) (hq : QuoteStable lim x) :
+    Agree w (reprStr P lim x) (pyStrRepr P x) := by
+  unfold reprStr
+  simp only []
+  split
+  · rename_i hlen
+    -- the middle is cut out
+    have hi : w ≤ (lim - 3) / 2 := by omega
+    unfold QuoteStable at hq
+    generalize hidef : (lim - 3) / 2 = i at hi hq ⊢
+    generalize hjdef : lim - 3 - i = j at hq ⊢
+    by_cases hxi : x.length ≤ i
+    · -- the whole string is in the first part: same quote, the escaped string is a common prefix
+      have htake : x.take i = x := List.take_of_length_le hxi
+      have htl : x.take lim = x := List.take_of_length_le (by omega)
+      rw [htake]
+      rw [htl] at hlen
+      have hqe : quoteOf (x ++ lastChars x j) = quoteOf x := quoteOf_append_suffix x _ (lastChars_suffix x j)
+      have hs2 : pyStrRepr P (x ++ lastChars x j) =
+          (quoteOf x :: escBody P (quoteOf x) x) ++ (escBody P (quoteOf x) (lastChars x j) ++ [quoteOf x]) := by
+        unfold pyStrRepr; rw [hqe, escBody_append]; simp
+      have hR : pyStrRepr P x = (quoteOf x :: escBody P (quoteOf x) x) ++ [quoteOf x] := by
+        unfold pyStrRepr; simp
+      have hplen : i < (quoteOf x :: escBody P (quoteOf x) x).length := by
+        have : (pyStrRepr P x).length = (quoteOf x :: escBody P (quoteOf x) x).length + 1 := by rw [hR]; simp
+        omega
+      rw [hs2, List.take_append_of_le_length (by omega), List.append_assoc]
+      have hsplit : pyStrRepr P x = (quoteOf x :: escBody P (quoteOf x) x).take i ++
+          ((quoteOf x :: escBody P (quoteOf x) x).drop i ++ [quoteOf x]) := by
+        conv => rhs; rw [← List.append_assoc, List.take_append_drop]
+        exact hR
+      conv => rhs; rw [hsplit]
+      apply Agree.of_prefix
+      · rw [List.length_take]; omega
+      · simp [fill]
+      · simp
+    · -- the first part is a proper prefix of the string
+      have hqs : quoteOf (x.take i ++ lastChars x j) = quoteOf x := by
+        rcases hq with h | h
+        · omega
+        · exact h
+      have hx : x = x.take i ++ x.drop i := (List.take_append_drop _ _).symm
+      have hs2 : pyStrRepr P (x.take i ++ lastChars x j) =
+          (quoteOf x :: escBody P (quoteOf x) (x.take i)) ++ (escBody P (quoteOf x) (lastChars x j) ++ [quoteOf x]) := by
+        unfold pyStrRepr; rw [hqs, escBody_append]; simp
+      have hR : pyStrRepr P x = (quoteOf x :: escBody P (quoteOf x) (x.take i)) ++
+          (escBody P (quoteOf x) (x.drop i) ++ [quoteOf x]) := by
+        have he : escBody P (quoteOf x) x = escBody P (quoteOf x) (x.take i) ++ escBody P (quoteOf x) (x.drop i) := by
+          rw [← escBody_append, List.take_append_drop]
+        unfold pyStrRepr
+        rw [he]; simp
+      have hplen : i < (quoteOf x :: escBody P (quoteOf x) (x.take i)).length := by
+        have := escBody_length P (quoteOf x) (x.take i)
+        rw [List.length_take] at this
+        simp only [List.length_cons]
+        omega
+      rw [hs2, List.take_append_of_le_length (by omega), List.append_assoc]
+      have hsplit : pyStrRepr P x = (quoteOf x :: escBody P (quoteOf x) (x.take i)).take i ++
+          ((quoteOf x :: escBody P (quoteOf x) (x.take i)).drop i ++ (escBody P (quoteOf x) (x.drop i) ++ [quoteOf x])) := by
+        conv => rhs; rw [← List.append_assoc, List.take_append_drop]
+        exact hR
+      conv => rhs; rw [hsplit]
+      apply Agree.of_prefix
+      · rw [List.length_take]; omega
+      · simp [fill]
+      · simp
+  · rename_i hlen
+    -- nothing is cut: the string is shorter than the limit
+    have hx : x.length ≤ lim := by
+      by_cases h : x.length ≤ lim
+      · exact h
+      · exfalso
+        have h1 := pyStrRepr_length P (x.take lim)
+        rw [List.length_take] at h1
+        omega
+    rw [List.take_of_length_le hx]
+    exact Agree.refl _ _
+
+
+/-! ### joined pieces -/
+
+/-- two lists related element by element -/
+inductive F2 {α β} (R : α → β → Prop) : List α → List β → Prop
+  | nil : F2 R [] []
+  | cons {a b l1 l2} : R a b → F2 R l1 l2 → F2 R (a :: l1) (b :: l2)
+
+/-- every piece followed by the separator -/
+def joinSepE : List Str → Str
+  | [] => []
+  | p :: r => p ++ ',' :: ' ' :: joinSepE r
+
+theorem joinSep_append_cons : ∀ (ps : List Str) (x : Str) (xs : List Str),
+    joinSep (ps ++ x :: xs) = joinSepE ps ++ joinSep (x :: xs)
+  | [], _, _ => rfl
+  | [p], x, xs => by simp [joinSep, joinSepE]
+  | p :: q :: r, x, xs => by
+    have ih := joinSep_append_cons (q :: r) x xs
+    simp only [List.cons_append] at ih ⊢
+    simp only [joinSep, joinSepE, ih, List.append_assoc, List.cons_append]
+
+/-- pieces that agree pairwise, followed by texts that both go on -/
+theorem joinSepE_agree (w : Nat) (X Y : Str) (hX : X ≠ []) (hY : Y ≠ []) : ∀ {ps qs : List Str}, F2 (Agree w) ps qs →
+    Agree (min w (2 * ps.length)) (joinSepE ps ++ X) (joinSepE qs ++ Y) := by
+  intro ps qs h
+  induction h with
+  | nil =>
+    simp only [joinSepE, List.nil_append, List.length_nil, Nat.mul_zero, Nat.min_zero]
+    exact Agree.of_prefix 0 [] X Y (Nat.le_refl _) hX hY
+  | cons hpq _ ih =>
+    rename_i p q ps qs
+    simp only [joinSepE, List.append_assoc, List.cons_append]
+    apply Agree.append (hpq.mono (Nat.min_le_left _ _))
+    intro hpe
+    have := ih.prepend [',', ' ']
+    simp only [List.cons_append, List.nil_append] at this
+    exact this.mono (by simp only [List.length_cons, List.length_nil]; omega)
+
+theorem joinSep_agree (w : Nat) : ∀ {ps qs : List Str}, F2 (Agree w) ps qs → Agree w (joinSep ps) (joinSep qs) := by
+  intro ps qs h
+  induction h with
+  | nil => exact Agree.refl _ _
+  | cons hpq hrest ih =>
+    rename_i p q ps qs
+    cases hrest with
+    | nil => simpa [joinSep] using hpq
+    | cons hpq2 hrest2 =>
+      simp only [joinSep]
+      apply Agree.append hpq
+      intro hpe
+      have := ih.prepend [',', ' ']
+      simp only [List.cons_append, List.nil_append] at this
+      exact this.mono (by omega)
+
+theorem F2_length {α β} {R : α → β → Prop} {l1 : List α} {l2 : List β} (h : F2 R l1 l2) : l1.length = l2.length := by
+  induction h with
+  | nil => rfl
+  | cons _ _ ih => simp [ih]
+
+theorem F2_take {α β} {R : α → β → Prop} {l1 : List α} {l2 : List β} (h : F2 R l1 l2) :
+    ∀ n, F2 R (l1.take n) (l2.take n) := by
+  induction h with
+  | nil => intro n; simp; exact F2.nil
+  | cons h1 _ ih =>
+    intro n
+    cases n with
+    | zero => simp; exact F2.nil
+    | succ n => simp only [List.take_succ_cons]; exact F2.cons h1 (ih n)
+
+/-- **`_repr_iterable` against Python's joining**: the pieces that are kept agree pairwise; when the
+    model cuts after `lim` pieces, the kept pieces are a common prefix longer than the budget -/
+theorem wrapPieces_agree (b : Brackets) (lim w : Nat) (ps qs : List Str) (h : F2 (Agree w) ps qs)
+    (hlim : w ≤ 2 * lim) (hr : b.right ≠ []) :
+    Agree (w + b.left.length) (wrapPieces b lim ps)
+      (b.left ++ joinSep qs ++ (if qs.length == 1 then b.trail else []) ++ b.right) := by
+  have hlen := F2_length h
+  unfold wrapPieces
+  rw [← hlen]
+  have hgoal : ∀ (A B : Str), Agree w A B →
+      Agree (w + b.left.length) (b.left ++ A ++ (if ps.length == 1 then b.trail else []) ++ b.right)
+        (b.left ++ B ++ (if ps.length == 1 then b.trail else []) ++ b.right) := by
+    intro A B hAB
+    have := (hAB.prepend b.left).append_same
+      ((if ps.length == 1 then b.trail else []) ++ b.right)
+    simpa [List.append_assoc] using this
+  by_cases hcut : ps.length > lim
+  · -- more items than the limit: `...` after the first `lim`
+    rw [if_pos hcut]
+    have hq : qs = qs.take lim ++ qs.drop lim := (List.take_append_drop _ _).symm
+    have hdne : qs.drop lim ≠ [] := by
+      intro h0
+      have := congrArg List.length h0
+      simp at this
+      omega
+    obtain ⟨y, ys, hy⟩ : ∃ y ys, qs.drop lim = y :: ys := by
+      cases hd : qs.drop lim with
+      | nil => exact absurd hd hdne
+      | cons y ys => exact ⟨y, ys, rfl⟩
+    have h1 : joinSep (ps.take lim ++ [fill]) = joinSepE (ps.take lim) ++ fill := by
+      rw [joinSep_append_cons]; rfl
+    have h2 : joinSep qs = joinSepE (qs.take lim) ++ joinSep (y :: ys) := by
+      conv => lhs; rw [hq, hy]
+      exact joinSep_append_cons _ _ _
+    rw [h1, h2]
+    have htl : (ps.take lim).length = lim := by rw [List.length_take]; omega
+    have key := joinSepE_agree w
+      (fill ++ ((if ps.length == 1 then b.trail else []) ++ b.right))
+      (joinSep (y :: ys) ++ ((if ps.length == 1 then b.trail else []) ++ b.right))
+      (by simp [fill]) (by simp [hr]) (F2_take h lim)
+    rw [htl, Nat.min_eq_left hlim] at key
+    have := key.prepend b.left
+    simpa [List.append_assoc] using this
+  · rw [if_neg hcut, List.take_of_length_le (by omega), List.append_nil]
+    exact hgoal _ _ (joinSep_agree w h)
+
+
+/-! ### sorting moves the pieces of both sides alike -/
+
+/-- same key, pieces that agree -/
+def PR (w : Nat) (p q : RV × Str) : Prop := p.1 = q.1 ∧ Agree w p.2 q.2
+
+theorem insertBy_F2 (w : Nat) (x y : RV × Str) (hxy : PR w x y) : ∀ {l1 l2 : List (RV × Str)}, F2 (PR w) l1 l2 →
+    F2 (PR w) (insertBy (fun a b => keyLe a.1 b.1) x l1) (insertBy (fun a b => keyLe a.1 b.1) y l2) := by
+  intro l1 l2 h
+  induction h with
+  | nil => exact F2.cons hxy F2.nil
+  | cons hab hrest ih =>
+    rename_i a b l1 l2
+    simp only [insertBy]
+    have hk : keyLe y.1 b.1 = keyLe x.1 a.1 := by rw [hxy.1, hab.1]
+    by_cases hc : keyLe x.1 a.1 = true
+    · rw [if_pos hc, if_pos (by rw [hk]; exact hc)]
+      exact F2.cons hxy (F2.cons hab hrest)
+    · rw [if_neg hc, if_neg (by rw [hk]; exact hc)]
+      exact F2.cons hab ih
+
+theorem sortBy_F2 (w : Nat) : ∀ {l1 l2 : List (RV × Str)}, F2 (PR w) l1 l2 →
+    F2 (PR w) (sortBy (fun a b => keyLe a.1 b.1) l1) (sortBy (fun a b => keyLe a.1 b.1) l2) := by
+  intro l1 l2 h
+  induction h with
+  | nil => exact F2.nil
+  | cons hab _ ih => exact insertBy_F2 w _ _ hab ih
+
+theorem F2_map_fst (w : Nat) {l1 l2 : List (RV × Str)} (h : F2 (PR w) l1 l2) : l1.map (·.1) = l2.map (·.1) := by
+  induction h with
+  | nil => rfl
+  | cons hab _ ih => simp [hab.1, ih]
+
+theorem possiblySorted_F2 (w : Nat) {l1 l2 : List (RV × Str)} (h : F2 (PR w) l1 l2) :
+    F2 (PR w) (possiblySorted l1) (possiblySorted l2) := by
+  unfold possiblySorted
+  rw [F2_map_fst w h]
+  split
+  · exact sortBy_F2 w h
+  · exact h
+
+theorem F2_map_snd (w : Nat) {l1 l2 : List (RV × Str)} (h : F2 (PR w) l1 l2) :
+    F2 (Agree w) (l1.map (·.2)) (l2.map (·.2)) := by
+  induction h with
+  | nil => exact F2.nil
+  | cons hab _ ih => exact F2.cons hab.2 ih
+
+
+/-! ### the main induction -/
+
+/-- every string leaf keeps its quote when `repr_str` cuts its middle out -/
+def strOK (L : Limits) : RV → Prop
+  | .str s => QuoteStable L.maxstring s
+  | .seq _ items => strOK L items
+  | .dict e => strOK L e
+  | .cons x r => strOK L x ∧ strOK L r
+  | _ => True
+
+theorem brackets_right_ne (k : SeqKind) : k.brackets.right ≠ [] := by
+  cases k with
+  | list => show "]".toList ≠ []; decide
+  | tuple => show ")".toList ≠ []; decide
+  | set => show "}".toList ≠ []; decide
+  | frozenset => show "})".toList ≠ []; decide
+  | deque => show "])".toList ≠ []; decide
+  | array tc => show "])".toList ≠ []; decide
+
+theorem brackets_left_pos (k : SeqKind) : 1 ≤ k.brackets.left.length := by
+  cases k with
+  | list => show 1 ≤ "[".toList.length; decide
+  | tuple => show 1 ≤ "(".toList.length; decide
+  | set => show 1 ≤ "{".toList.length; decide
+  | frozenset => show 1 ≤ "frozenset({".toList.length; decide
+  | deque => show 1 ≤ "deque([".toList.length; decide
+  | array tc =>
+    show 1 ≤ ("array('".toList ++ tc :: "', [".toList).length
+    rw [List.length_append]; simp
+
+theorem limit_ge (L : Limits) (b : Nat) (h : L.allGe b = true) (k : SeqKind) : b ≤ k.limit L := by
+  have := SeqKind.limit_le (Limits.uniform b) L (uniform_le_of_allGe L b h) k
+  cases k <;> simpa [SeqKind.limit, Limits.uniform] using this
+
+/-- **the model's text of any value and Python's `repr` of it agree for `w` characters**, when every
+    limit is at least `2 W + 5`, `w ≤ W`, and there are at least `w` nesting levels left -/
+theorem agree_all (L : Limits) (P : Char → Bool) (W : Nat) (hL : L.allGe (2 * W + 5) = true) : ∀ v : RV, strOK L v →
+    (∀ lvl w, w ≤ lvl → w ≤ W → Agree w (repr1 L P v lvl) (refRepr P v)) ∧
+    (∀ l w, w ≤ l → w ≤ W → F2 (PR w) (reprItems L P v l) (refItems P v)) ∧
+    (∀ l w, w ≤ l → w ≤ W → F2 (PR w) (reprEntries L P v l) (refEntries P v)) ∧
+    (∀ k l w, w ≤ l → w ≤ W → (∀ lvl w, w ≤ lvl → w ≤ W → Agree w (repr1 L P k lvl) (refRepr P k)) →
+      F2 (PR w) (reprEntries L P (.cons k v) l) (refEntries P (.cons k v))) := by
+  have hle := uniform_le_of_allGe L (2 * W + 5) hL
+  obtain ⟨_, _, _, _, hdict, _, _, _, hstr, hlong, hoth⟩ := hle
+  simp only [Limits.uniform] at hdict hstr hlong hoth
+  intro v
+  induction v with
+  | int n =>
+    intro _
+    refine ⟨?_, by intros; simp only [reprItems, refItems]; exact F2.nil,
+      by intros; simp only [reprEntries, refEntries]; exact F2.nil,
+      by intros; simp only [reprEntries, refEntries]; exact F2.nil⟩
+    intro lvl w _ hw
+    simp only [repr1, refRepr]
+    exact elide_agree w _ _ (by omega)
+  | str s =>
+    intro hs
+    refine ⟨?_, by intros; simp only [reprItems, refItems]; exact F2.nil,
+      by intros; simp only [reprEntries, refEntries]; exact F2.nil,
+      by intros; simp only [reprEntries, refEntries]; exact F2.nil⟩
+    intro lvl w _ hw
+    simp only [repr1, refRepr]
+    exact reprStr_agree P w _ s (by omega) hs
+  | other r bn =>
+    intro _
+    refine ⟨?_, by intros; simp only [reprItems, refItems]; exact F2.nil,
+      by intros; simp only [reprEntries, refEntries]; exact F2.nil,
+      by intros; simp only [reprEntries, refEntries]; exact F2.nil⟩
+    intro lvl w _ hw
+    simp only [repr1, refRepr]
+    rw [elide_head _ r (by omega)]
+    split
+    · cases bn with
+      | none => exact elide_agree w _ _ (by omega)
+      | some n => exact Agree.refl _ _
+    · exact elide_agree w _ _ (by omega)
+  | nil =>
+    intro _
+    exact ⟨by intros; simp only [repr1, refRepr]; exact Agree.refl _ _,
+      by intros; simp only [reprItems, refItems]; exact F2.nil,
+      by intros; simp only [reprEntries, refEntries]; exact F2.nil,
+      by intros; simp only [reprEntries, refEntries]; exact F2.nil⟩
+  | cons x rest ihx ihr =>
+    intro hs
+    obtain ⟨hsx, hsr⟩ := hs
+    refine ⟨by intros; simp only [repr1, refRepr]; exact Agree.refl _ _, ?_, ?_, ?_⟩
+    · intro l w hwl hw
+      simp only [reprItems, refItems]
+      exact F2.cons ⟨rfl, (ihx hsx).1 l w hwl hw⟩ ((ihr hsr).2.1 l w hwl hw)
+    · intro l w hwl hw
+      exact (ihr hsr).2.2.2 x l w hwl hw (ihx hsx).1
+    · intro k l w hwl hw hk
+      simp only [reprEntries, refEntries]
+      refine F2.cons ⟨rfl, ?_⟩ ((ihr hsr).2.2.1 l w hwl hw)
+      apply Agree.append (hk l w hwl hw)
+      intro _
+      have := ((ihx hsx).1 l w hwl hw).prepend [':', ' ']
+      simp only [List.cons_append, List.nil_append] at this
+      exact this.mono (by omega)
+  | seq k items ih =>
+    intro hs
+    refine ⟨?_, by intros; simp only [reprItems, refItems]; exact F2.nil,
+      by intros; simp only [reprEntries, refEntries]; exact F2.nil,
+      by intros; simp only [reprEntries, refEntries]; exact F2.nil⟩
+    intro lvl w hwl hw
+    simp only [repr1, refRepr]
+    by_cases hc : (items.count == 0) = true
+    · simp only [hc, if_true]; exact Agree.refl _ _
+    · simp only [hc, Bool.false_eq_true, if_false]
+      cases lvl with
+      | zero =>
+        have hw0 : w = 0 := by omega
+        subst hw0
+        simp only []
+        rw [List.append_assoc, List.append_assoc, List.append_assoc]
+        exact Agree.of_prefix 0 k.brackets.left _ _ (Nat.zero_le _) (by simp [fill]) (by simp [brackets_right_ne k])
+      | succ l =>
+        simp only []
+        have hB := (ih hs).2.1 l (w - 1) (by omega) (by omega)
+        have hpieces : F2 (Agree (w - 1))
+            ((if k.brackets.sorted = true then possiblySorted (reprItems L P items l) else reprItems L P items l).map (·.2))
+            ((if k.brackets.sorted = true then possiblySorted (refItems P items) else refItems P items).map (·.2)) := by
+          split
+          · exact F2_map_snd _ (possiblySorted_F2 _ hB)
+          · exact F2_map_snd _ hB
+        have := wrapPieces_agree k.brackets (k.limit L) (w - 1) _ _ hpieces
+          (by have := limit_ge L _ hL k; omega) (brackets_right_ne k)
+        exact this.mono (by have := brackets_left_pos k; omega)
+  | dict entries ih =>
+    intro hs
+    refine ⟨?_, by intros; simp only [reprItems, refItems]; exact F2.nil,
+      by intros; simp only [reprEntries, refEntries]; exact F2.nil,
+      by intros; simp only [reprEntries, refEntries]; exact F2.nil⟩
+    intro lvl w hwl hw
+    simp only [repr1, refRepr]
+    by_cases hc : (entries.count == 0) = true
+    · simp only [hc, if_true]; exact Agree.refl _ _
+    · simp only [hc, Bool.false_eq_true, if_false]
+      cases lvl with
+      | zero =>
+        have hw0 : w = 0 := by omega
+        subst hw0
+        simp only []
+        exact Agree.of_prefix 0 ['{'] (fill ++ ['}']) _ (Nat.zero_le _) (by simp [fill]) (by simp)
+      | succ l =>
+        simp only []
+        have hB := (ih hs).2.2.1 l (w - 1) (by omega) (by omega)
+        have hpieces := F2_map_snd _ (possiblySorted_F2 _ hB)
+        have := wrapPieces_agree { left := ['{'], right := ['}'] } L.maxdict (w - 1) _ _ hpieces (by omega) (by simp)
+        have h2 := this.mono (show w ≤ w - 1 + 1 by omega)
+        simpa using h2
+
+
+/-! ### `.replace("\\'", "'")` and `_format_trace_value` on texts that agree -/
+
+theorem replQ_cons_ne (c : Char) (r : Str) (h : ¬ (c = '\\' ∧ r.head? = some '\'')) : replQ (c :: r) = c :: replQ r :=
+  replQ.eq_2 c r (fun r' hc hr => h ⟨hc, by rw [hr]; rfl⟩)
+
+/-- a prefix that does not end with a backslash is replaced on its own -/
+theorem replQ_append_of_last : ∀ (p x : Str), p.getLast? ≠ some '\\' → replQ (p ++ x) = replQ p ++ replQ x
+  | [], x, _ => rfl
+  | [c], x, h => by
+    have hc : c ≠ '\\' := by simpa using h
+    rw [show [c] ++ x = c :: x from rfl, replQ_cons_ne c x (fun h' => hc h'.1), replQ_cons_ne c [] (fun h' => hc h'.1)]
+    simp [replQ]
+  | c :: d :: r, x, h => by
+    have hl : (d :: r).getLast? ≠ some '\\' := by
+      rw [List.getLast?_cons_cons] at h; exact h
+    have ih := replQ_append_of_last (d :: r) x hl
+    by_cases hm : c = '\\' ∧ d = '\''
+    · obtain ⟨rfl, rfl⟩ := hm
+      show replQ ('\\' :: '\'' :: (r ++ x)) = replQ ('\\' :: '\'' :: r) ++ replQ x
+      rw [replQ.eq_1, replQ.eq_1]
+      cases r with
+      | nil => rfl
+      | cons e r' =>
+        have hl' : (e :: r').getLast? ≠ some '\\' := by
+          rw [List.getLast?_cons_cons] at hl; exact hl
+        rw [replQ_append_of_last (e :: r') x hl']
+        rfl
+    · show replQ (c :: (d :: r ++ x)) = replQ (c :: d :: r) ++ replQ x
+      rw [replQ_cons_ne c (d :: r ++ x) (fun h' => hm ⟨h'.1, by simpa using h'.2⟩),
+        replQ_cons_ne c (d :: r) (fun h' => hm ⟨h'.1, by simpa using h'.2⟩), ih]
+      rfl
+
+theorem replQ_backslashes : ∀ (k : Nat) (y : Str), replQ (List.replicate k '\\' ++ '\\' :: y) =
+    List.replicate k '\\' ++ replQ ('\\' :: y)
+  | 0, _ => rfl
+  | k + 1, y => by
+    have hh : ¬ ('\\' = '\\' ∧ (List.replicate k '\\' ++ '\\' :: y).head? = some '\'') := by
+      intro h
+      cases k with
+      | zero => simp at h
+      | succ k' => simp [List.replicate_succ] at h
+    rw [List.replicate_succ, List.cons_append, replQ_cons_ne _ _ hh, replQ_backslashes k y]
+    rfl
+
+theorem replQ_length : ∀ (s : Str), s.length ≤ 2 * (replQ s).length := by
+  intro s
+  fun_induction replQ s with
+  | case1 r ih => simp only [List.length_cons]; omega
+  | case2 c r _ ih => simp only [List.length_cons]; omega
+  | case3 => simp
+
+theorem replQ_ne_nil (s : Str) (h : s ≠ []) : replQ s ≠ [] := by
+  intro h0
+  have := replQ_length s
+  rw [h0] at this
+  simp only [List.length_nil, Nat.mul_zero, Nat.le_zero_eq] at this
+  exact h (List.eq_nil_of_length_eq_zero this)
+
+theorem split_backslashes (p : Str) : ∃ p' k, p = p' ++ List.replicate k '\\' ∧ p'.getLast? ≠ some '\\' := by
+  -- by induction on the reversed string
+  have key : ∀ (q : Str), ∃ p' k, q.reverse = p' ++ List.replicate k '\\' ∧ p'.getLast? ≠ some '\\' := by
+    intro q
+    induction q with
+    | nil => exact ⟨[], 0, rfl, by simp⟩
+    | cons c r ih =>
+      -- q.reverse = r.reverse ++ [c]
+      by_cases hc : c = '\\'
+      · subst hc
+        -- only when all of `r.reverse` … is handled through the run: take the run of `r.reverse` and extend it
+        obtain ⟨p', k, hr, hp'⟩ := ih
+        refine ⟨p', k + 1, ?_, hp'⟩
+        rw [List.reverse_cons, hr, List.append_assoc, List.replicate_succ']
+      · exact ⟨(c :: r).reverse, 0, by simp, by simp [hc]⟩
+  obtain ⟨p', k, h1, h2⟩ := key p.reverse
+  rw [List.reverse_reverse] at h1
+  exact ⟨p', k, h1, h2⟩
+
+/-- after the replacement two texts that agree for `w` characters agree for `w / 2 - 1` -/
+theorem Agree.replQ {w : Nat} {a b : Str} (h : Agree w a b) : Agree (w / 2 - 1) (replQ a) (replQ b) := by
+  rcases h with h | ⟨p, a', b', rfl, rfl, hw, ha, hb⟩
+  · subst h; exact Agree.refl _ _
+  · obtain ⟨p', k, rfl, hp'⟩ := split_backslashes p
+    have hlen := replQ_length p'
+    simp only [List.length_append, List.length_replicate] at hw
+    cases k with
+    | zero =>
+      simp only [List.replicate_zero, List.append_nil]
+      rw [replQ_append_of_last p' a' hp', replQ_append_of_last p' b' hp']
+      exact Agree.of_prefix _ _ _ _ (by omega) (replQ_ne_nil a' ha) (replQ_ne_nil b' hb)
+    | succ k =>
+      rw [List.append_assoc, List.append_assoc, replQ_append_of_last p' _ hp', replQ_append_of_last p' _ hp']
+      rw [List.replicate_succ', List.append_assoc, List.append_assoc]
+      simp only [List.singleton_append]
+      rw [replQ_backslashes k a', replQ_backslashes k b', ← List.append_assoc, ← List.append_assoc]
+      exact Agree.of_prefix _ _ _ _ (by simp only [List.length_append, List.length_replicate]; omega)
+        (replQ_ne_nil _ (by simp)) (replQ_ne_nil _ (by simp))
+
+theorem formatValue_agree_suf (suf p a' b' : Str) (w : Nat) (m : Int) (hw : w ≤ p.length) (ha : a' ≠ []) (hb : b' ≠ [])
+    (hm : m ≤ w) (hs : (suf.length : Int) ≤ m) :
+    (if ((p ++ a').length : Int) > m then pySliceTo (p ++ a') (m - suf.length) ++ suf else p ++ a') =
+    (if ((p ++ b').length : Int) > m then pySliceTo (p ++ b') (m - suf.length) ++ suf else p ++ b') := by
+  have ha' : 0 < a'.length := List.length_pos_iff.mpr ha
+  have hb' : 0 < b'.length := List.length_pos_iff.mpr hb
+  rw [if_pos (by simp only [List.length_append]; omega), if_pos (by simp only [List.length_append]; omega)]
+  unfold pySliceTo
+  rw [if_pos (by omega), if_pos (by omega)]
+  have hk : (m - (suf.length : Int)).toNat ≤ p.length := by omega
+  rw [List.take_append_of_le_length hk, List.take_append_of_le_length hk]
+
+/-- `_format_trace_value` of two texts that agree beyond the available width -/
+theorem formatValue_agree (w : Nat) (a b : Str) (vlen : Option Nat) (m : Int) (h : Agree w a b)
+    (hm : m ≤ w) (hs : ((match vlen with
+      | some n => "... (len=".toList ++ natStr n ++ ")".toList
+      | none => "...".toList).length : Int) ≤ m) :
+    formatValue a vlen m = formatValue b vlen m := by
+  rcases h with h | ⟨p, a', b', rfl, rfl, hw, ha, hb⟩
+  · subst h; rfl
+  · cases vlen with
+    | none => exact formatValue_agree_suf "...".toList p a' b' w m hw ha hb hm hs
+    | some n => exact formatValue_agree_suf ("... (len=".toList ++ natStr n ++ ")".toList) p a' b' w m hw ha hb hm hs
+
+
+theorem allGe_mono (L : Limits) (b b' : Nat) (h : L.allGe b = true) (hb : b' ≤ b) : L.allGe b' = true := by
+  simp only [Limits.allGe, Limits.toList, List.all_cons, List.all_nil, Bool.and_true, Bool.and_eq_true,
+    decide_eq_true_eq] at h ⊢
+  omega
+
+
 end Glom.C05
